@@ -9,6 +9,7 @@ package main
 import (
 	"fmt"
 	"math/big"
+	"strconv"
 	"strings"
 	"sync/atomic"
 )
@@ -41,6 +42,55 @@ type Term struct {
 	lo, hi *big.Int // interval for Int terms (nil = unbounded)
 	id     int
 	size   int
+	h1, h2 uint64 // structural hash (lazy)
+	hashed bool
+}
+
+func mix(h, x uint64) uint64 {
+	h ^= x + 0x9e3779b97f4a7c15 + (h << 6) + (h >> 2)
+	h *= 0xff51afd7ed558ccd
+	h ^= h >> 33
+	return h
+}
+
+func strHash(s string, seed uint64) uint64 {
+	h := seed
+	for i := 0; i < len(s); i++ {
+		h = (h ^ uint64(s[i])) * 0x100000001b3
+	}
+	return h
+}
+
+// hash returns the 128-bit structural hash of t.
+func (t *Term) hash() (uint64, uint64) {
+	if t.hashed {
+		return t.h1, t.h2
+	}
+	h1 := strHash(t.op, 0xcbf29ce484222325)
+	h2 := strHash(t.op, 0x84222325cbf29ce4)
+	h1 = mix(h1, uint64(t.sort))
+	switch t.op {
+	case "const":
+		switch t.sort {
+		case SInt:
+			vs := t.val.String()
+			h1, h2 = mix(h1, strHash(vs, 1)), mix(h2, strHash(vs, 2))
+		case SBool:
+			if t.bval {
+				h1, h2 = mix(h1, 7), mix(h2, 9)
+			}
+		default:
+			h1, h2 = mix(h1, strHash(t.raw, 1)), mix(h2, strHash(t.raw, 2))
+		}
+	case "var":
+		h1, h2 = mix(h1, strHash(t.raw, 3)), mix(h2, strHash(t.raw, 4))
+	}
+	for _, a := range t.args {
+		a1, a2 := a.hash()
+		h1, h2 = mix(h1, a1), mix(h2, a2+1)
+	}
+	t.h1, t.h2, t.hashed = h1, h2, true
+	return h1, h2
 }
 
 var termCounter int64
@@ -482,8 +532,9 @@ func tFP(op string, sort Sort, args ...*Term) *Term { return newTerm(op, sort, a
 // ---- printing ----
 
 type printer struct {
-	defined map[*Term]string
-	out     *strings.Builder // definitions emitted before the term
+	defined map[string]uint64 // name -> second hash (collision guard); shared with the solver context
+	out     *strings.Builder  // definitions emitted before the term
+	onDef   func(name string)
 }
 
 func smtInt(v *big.Int) string {
@@ -510,8 +561,16 @@ func (p *printer) str(t *Term) string {
 	case "var":
 		return t.raw
 	}
-	if n, ok := p.defined[t]; ok {
-		return n
+	var name string
+	if t.size > 6 {
+		h1, h2 := t.hash()
+		name = "t!" + strconv.FormatUint(h1, 36)
+		if g, ok := p.defined[name]; ok {
+			if g != h2 {
+				panic(engineError{"structural hash collision"})
+			}
+			return name
+		}
 	}
 	var sb strings.Builder
 	sb.WriteByte('(')
@@ -524,7 +583,7 @@ func (p *printer) str(t *Term) string {
 	s := sb.String()
 	if t.size > 6 {
 		// name it so that shared sub-DAGs are printed once
-		n := fmt.Sprintf("t!%d", t.id)
+		n := name
 		srt := t.sort.String()
 		if strings.HasPrefix(t.op, "(_ int2bv") {
 			srt = "(_ BitVec " + strings.TrimSuffix(strings.TrimPrefix(t.op, "(_ int2bv "), ")") + ")"
@@ -532,7 +591,11 @@ func (p *printer) str(t *Term) string {
 			srt = p.bvSort(t)
 		}
 		fmt.Fprintf(p.out, "(define-fun %s () %s %s)\n", n, srt, s)
-		p.defined[t] = n
+		_, h2 := t.hash()
+		p.defined[n] = h2
+		if p.onDef != nil {
+			p.onDef(n)
+		}
 		return n
 	}
 	return s
